@@ -60,6 +60,12 @@ Theorem C18_trapdoor_equivocates : forall q t m r m' r',
 Proof. exact ped_trapdoor_equivocates. Qed.
 Print Assumptions C18_trapdoor_equivocates.
 
+(* on a valid trapdoor key (λ ≠ 0 mod q, q prime) Equivocate never refuses *)
+Theorem C18_equivocate_total : forall q t m r m',
+  Znumtheory.prime q -> (tk_lambda t mod q <> 0)%Z -> exists r', ped_equivocate q t m r m' = Some r'.
+Proof. exact ped_equivocate_total. Qed.
+Print Assumptions C18_equivocate_total.
+
 Theorem C18_trapdoor_commit_is_public_commit : forall q t m r,
   ped_tcommit q t m r = ped_commit q (ped_export q t) m r.
 Proof. exact ped_trapdoor_commit_is_public. Qed.
@@ -107,6 +113,40 @@ Theorem C18_intcom_changed_commitment_fails : forall k m r c',
   (c' mod ik_n k)%Z <> int_commit k m r -> int_open k c' m r = false.
 Proof. exact int_changed_commitment_fails. Qed.
 Print Assumptions C18_intcom_changed_commitment_fails.
+
+(* the honest statement about binding of integer commitments: with s = t^λ and t of
+   order ord, exactly the openings with λ·m + r ≡ λ·m' + r' (mod ord) give the same
+   commitment.  That such a pair cannot be found without λ / ord rests on hardness and
+   is NOT claimed. *)
+Theorem C18_intcom_openings_coincide_iff : forall (k : int_key) (lambda ti : Z),
+  (1 < ik_n k)%Z -> ((ik_t k * ti) mod ik_n k = 1 mod ik_n k)%Z -> (0 <= lambda)%Z ->
+  ik_s k = (ik_t k ^ lambda mod ik_n k)%Z ->
+  forall ord : Z, (0 < ord)%Z -> (ik_t k ^ ord mod ik_n k = 1)%Z ->
+  (forall e : Z, (0 < e < ord)%Z -> (ik_t k ^ e mod ik_n k)%Z <> 1%Z) ->
+  forall m r m' r' : Z,
+  int_commit k m r = int_commit k m' r' <-> ((lambda * m + r) mod ord = (lambda * m' + r') mod ord)%Z.
+Proof. exact int_openings_coincide_iff. Qed.
+Print Assumptions C18_intcom_openings_coincide_iff.
+
+(* the designed exception for intcom: a witness of the form Equivocate returns opens the
+   same commitment to the new message *)
+Theorem C18_intcom_equivocate_opens : forall (k : int_key) (lambda ti : Z),
+  (1 < ik_n k)%Z -> ((ik_t k * ti) mod ik_n k = 1 mod ik_n k)%Z -> (0 <= lambda)%Z ->
+  ik_s k = (ik_t k ^ lambda mod ik_n k)%Z ->
+  forall ord : Z, (0 < ord)%Z -> (ik_t k ^ ord mod ik_n k = 1)%Z ->
+  forall m r m' r' : Z,
+  int_equivocate_ok k ord lambda m r m' r' = true -> int_open k (int_commit k m r) m' r' = true.
+Proof. exact int_equivocate_opens. Qed.
+Print Assumptions C18_intcom_equivocate_opens.
+
+(* homomorphic operation sequences of any length over Z_N^* (signed exponents) *)
+Theorem C18_intcom_program_opens : forall (k : int_key) (lambda ti : Z),
+  (1 < ik_n k)%Z -> ((ik_t k * ti) mod ik_n k = 1 mod ik_n k)%Z -> (0 <= lambda)%Z ->
+  ik_s k = (ik_t k ^ lambda mod ik_n k)%Z ->
+  forall ops : list hop,
+  Forall (fun g => let '(m, r, c) := g in int_open k c m r = true) (hrun (int_scheme k) ops).
+Proof. exact int_program_opens. Qed.
+Print Assumptions C18_intcom_program_opens.
 
 (* ---- indcpacom ---- *)
 
@@ -163,15 +203,19 @@ Print Assumptions C18_extracted_keys_equal_iff_transcripts_equal.
 (* secp256k1 group order *)
 Definition q_k256 : Z := 0xFFFFFFFFFFFFFFFFFFFFFFFFFFFFFFFEBAAEDCE6AF48A03BBFD25E8CD0364141%Z.
 
-(* a trapdoor key over the k256 order equivocates: Equivocate does return a witness *)
+(* a trapdoor key over the k256 order equivocates: NewTrapdoorKey accepts, Equivocate
+   returns a witness different from the original one, and it opens under the exported key *)
 Example C18_nonvacuous_equivocation :
-  exists t r', ped_new_tkey q_k256 (1, 0)%Z 123456789%Z = Some t /\
-    ped_equivocate q_k256 t 5%Z 77%Z (q_k256 - 1)%Z = Some r' /\ r' <> 77%Z /\
-    ped_open q_k256 (ped_export q_k256 t) (ped_tcommit q_k256 t 5 77) (q_k256 - 1) r' = true.
-Proof.
-  eexists. eexists. split; [vm_compute; reflexivity|]. split; [vm_compute; reflexivity|].
-  split; [vm_compute; discriminate|vm_compute; reflexivity].
-Qed.
+  match ped_new_tkey q_k256 (1, 0)%Z 123456789%Z with
+  | Some t =>
+      match ped_equivocate q_k256 t 5%Z 77%Z (q_k256 - 1)%Z with
+      | Some r' => negb (r' =? 77)%Z &&
+                   ped_open q_k256 (ped_export q_k256 t) (ped_tcommit q_k256 t 5 77) (q_k256 - 1) r'
+      | None => false
+      end
+  | None => false
+  end = true.
+Proof. vm_compute. reflexivity. Qed.
 
 (* a well-formed hashcom instance and a non-trivial program *)
 Example C18_nonvacuous_hashcom_and_program :
@@ -180,4 +224,19 @@ Example C18_nonvacuous_hashcom_and_program :
   extract_key bytes (fun c => xc_input c) (fun b => b) 32 [1%N] [Dom [2%N]; App [3%N] [[4%N]]] [5%N] <> None.
 Proof.
   split; [split; reflexivity|]. split; [vm_compute; reflexivity|vm_compute; discriminate].
+Qed.
+
+(* intcom hypotheses: N̂ = 7·11 (safe primes), t = 4 of order 15 = 3·5, λ = 2, s = 16 *)
+Example C18_nonvacuous_intcom :
+  let k := {| ik_n := 77; ik_s := 16; ik_t := 4 |} in
+  (1 < ik_n k)%Z /\ ((ik_t k * 58) mod ik_n k = 1 mod ik_n k)%Z /\ ik_s k = (ik_t k ^ 2 mod ik_n k)%Z /\
+  (ik_t k ^ 15 mod ik_n k = 1)%Z /\
+  (forall e : Z, (0 < e < 15)%Z -> (ik_t k ^ e mod ik_n k)%Z <> 1%Z) /\
+  int_commit k 5 (-3) = int_commit k 4 (-1) /\ int_commit k 5 (-3) <> int_commit k 5 (-2).
+Proof.
+  cbn zeta. cbn [ik_n ik_s ik_t]. repeat split; try (vm_compute; congruence).
+  intros e He.
+  assert (E : (e = 1 \/ e = 2 \/ e = 3 \/ e = 4 \/ e = 5 \/ e = 6 \/ e = 7 \/ e = 8 \/ e = 9 \/ e = 10
+               \/ e = 11 \/ e = 12 \/ e = 13 \/ e = 14)%Z) by (clear - He; Lia.lia).
+  repeat (destruct E as [->|E]; [vm_compute; discriminate|]). subst e. vm_compute. discriminate.
 Qed.
